@@ -370,6 +370,13 @@ def run_c02(args):
     cfg = os.path.join(vf.SPEC, "trace", "DispatchTrace.cfg")
     vf.validate_batches(chk, "DispatchTrace", lfiles, cfg=cfg, parallel=8, timeout=1500, label="lookup traces")
     vf.validate_batches(chk, "DispatchTrace", rfiles, cfg=cfg, parallel=12, timeout=1500, label="agreement traces")
+    if not quick:
+        # the repository's own tests, traced through the file sink: every lookup they perform obeys the model
+        import repotests
+        rt = repotests.traces(wd)
+        chk.extra["repository_tests_traced"] = [n for n, _ in rt]
+        vf.validate_batches(chk, "DispatchTrace", [t for _, t in rt], cfg=cfg, parallel=8, timeout=1500,
+                            label="lookup traces of the repository's tests")
     for v in chk.violations:
         try:
             os.link(script, v["replay"] + ".script")
